@@ -380,6 +380,17 @@ func (h *DNSHandler) ProcessMDNS(frame packet.Frame) (ipv4 []packet.IPNameEntry,
 
 	model := ""
 	section := "answer"
+	// skip skips the current resource of the section being parsed; a resource that cannot be
+	// skipped ends the processing (the parser cannot advance past it)
+	skip := func() error {
+		switch section {
+		case "authority":
+			return p.SkipAuthority()
+		case "additional":
+			return p.SkipAdditional()
+		}
+		return p.SkipAnswer()
+	}
 	for {
 		var hdr dnsmessage.ResourceHeader
 		switch section {
@@ -453,7 +464,9 @@ func (h *DNSHandler) ProcessMDNS(frame packet.Frame) (ipv4 []packet.IPNameEntry,
 			r, err := p.PTRResource()
 			if err != nil {
 				LoggerMDNS.Msg("invalid PTR resource").String("name", hdr.Name.String()).Error(err).Write()
-				p.SkipAnswer()
+				if err := skip(); err != nil {
+					return ipv4, ipv6, err
+				}
 				continue
 			}
 			if Debug {
@@ -478,7 +491,9 @@ func (h *DNSHandler) ProcessMDNS(frame packet.Frame) (ipv4 []packet.IPNameEntry,
 				} else {
 					LoggerMDNS.Msg("invalid SRV resource").String("name", hdr.Name.String()).Error(err).Write()
 				}
-				p.SkipAnswer()
+				if err := skip(); err != nil {
+					return ipv4, ipv6, err
+				}
 				continue
 			}
 			if Debug {
@@ -489,7 +504,9 @@ func (h *DNSHandler) ProcessMDNS(frame packet.Frame) (ipv4 []packet.IPNameEntry,
 			r, err := p.TXTResource()
 			if err != nil {
 				LoggerMDNS.Msg("invalid TXT resource").String("name", hdr.Name.String()).Error(err).Write()
-				p.SkipAnswer()
+				if err := skip(); err != nil {
+					return ipv4, ipv6, err
+				}
 				continue
 			}
 			if m := parseTXT(r.TXT); m != "" {
@@ -504,7 +521,9 @@ func (h *DNSHandler) ProcessMDNS(frame packet.Frame) (ipv4 []packet.IPNameEntry,
 			if err != nil {
 				// fmt.Printf("mdns  : error invalid OPT resource name=%s error=[%s]\n", hdr.Name, err)
 				LoggerMDNS.Msg("invalid OPT resource").String("name", hdr.Name.String()).Error(err).Write()
-				p.SkipAnswer()
+				if err := skip(); err != nil {
+					return ipv4, ipv6, err
+				}
 				continue
 			}
 			if Debug {
@@ -516,12 +535,16 @@ func (h *DNSHandler) ProcessMDNS(frame packet.Frame) (ipv4 []packet.IPNameEntry,
 				// fmt.Printf("mdns  : NSEC resource type not implemented %+v\n", hdr)
 				LoggerMDNS.Msg("NSEC resource not implemented").String("name", hdr.Name.String()).Sprintf("hdr", hdr).Write()
 			}
-			p.SkipAnswer()
+			if err := skip(); err != nil {
+				return ipv4, ipv6, err
+			}
 
 		default:
 			// fmt.Printf("mdns  : error unexpected resource type %+v\n", hdr)
 			LoggerMDNS.Msg("ignoring unexpected resource type").String("name", hdr.Name.String()).Sprintf("hdr", hdr).Write()
-			p.SkipAnswer()
+			if err := skip(); err != nil {
+				return ipv4, ipv6, err
+			}
 		}
 	}
 }
